@@ -604,7 +604,7 @@ class GraphParser:
 
         # Raise error for cycle point offsets at the end of chains
         if '[' in right and left:
-            check_terminals[right] = left
+            check_terminals[right.strip('()')] = left
 
         # Split right side on AND.
         rights = right.split(self.__class__.OP_AND)
@@ -625,7 +625,8 @@ class GraphParser:
             raise GraphParseError(
                 f"Null task name in graph: {left} => {right}")
 
-        _rights.update(*([rights] or []))
+        # (parentheses don't matter on the right)
+        _rights.update(r.strip('()') for r in rights)
 
         for left in lefts:
             # Extract information about all nodes on the left.
